@@ -56,6 +56,7 @@ def correspondence(ctx):
         cases.append(f'prof|nick|enforce|f|b|{hexs(s_)}|')
     for s_ in straddle_strings(maxn=40 if ctx.tier == 'quick' else 130):
         cases.append(f'prof|nick|enforce|f|b|{hexs(s_)}|')
+    cases += fuzz_cases(ctx, {3, 7, 10})      # coverage-guided search of the tree under check (only when the source changed / thorough)
     res = run_cases(cases, ctx.work)
     round_results = {}
     for case, impl_, _, _ in res:
